@@ -91,7 +91,12 @@ def main():
         replay_path = os.path.join(VERIF, "replay", "%s_%s_%d.json" % (pid, a.tier, seed))
         rep = dict(property=pid, tier=a.tier, seed=seed)
         if new_viol:
-            rep.update(kind="failing-input", violation=new_viol[0], more=new_viol[1:6], no_longer_checks=broken)
+            keys = {}
+            for v in new_viol:
+                keys[v["key"]] = keys.get(v["key"], 0) + 1
+                if os.environ.get("VERIF_DUMP_KEY") and os.environ["VERIF_DUMP_KEY"] in v["key"]:
+                    print("  dump: " + json.dumps(v, default=str)[:1200])
+            rep.update(kind="failing-input", violation=new_viol[0], more=new_viol[1:6], violation_keys=keys, no_longer_checks=broken)
         else:
             rep.update(kind="no-failing-input-found", no_longer_checks=broken)
         common.write_json(replay_path, rep)
